@@ -317,3 +317,122 @@ def _make_partition(mname, pm, idx):
 
 for _m, _pm, _ix in [('before', 'partition', 0), ('after', 'partition', 2), ('before_last', 'rpartition', 0), ('after_last', 'rpartition', 2)]:
     _make_partition(_m, _pm, _ix)
+
+
+# ------------------------------------------------------------------ C16 fingerprint
+from pyvc.contract import loop_invariant  # noqa: E402
+
+
+@contract('serif.vector.Vector._hash_element', props=['C16'])
+class hash_element:
+    """Trusted: a deterministic function of the element (hash() within one process)."""
+    params = {'x': 'any'}
+    trusted = True
+
+    def returns(x):
+        return S.hash_elem(x)
+
+
+@loop_invariant('serif.vector.Vector._compute_fingerprint_full', 0, havoc={'total': 'int', 'h': 'int'})
+def fp_loop_inv(k, self, total):
+    return total == S.fp_prefix(self._underlying, k)
+
+
+@contract('serif.vector.Vector._compute_fingerprint_full', props=['C16'])
+class compute_fingerprint_full:
+    """C16: the fingerprint is the Horner fold of the element hashes of the CURRENT contents."""
+    params = {'self': 'vector'}
+
+    def returns(self):
+        return S.fp_spec(self._underlying)
+
+
+@lemma('fingerprint-carry', props=['C16'])
+class l_fp_carry:
+    """Different running totals stay different after absorbing the same element hash."""
+    params = {'t1': 'int', 't2': 'int', 'h': 'int'}
+
+    def requires(t1, t2):
+        return 0 <= t1 < S.FP_P and 0 <= t2 < S.FP_P and t1 != t2
+
+    def statement(t1, t2, h):
+        return S.horner_step(t1, h) != S.horner_step(t2, h)
+
+
+@lemma('fingerprint-inject', props=['C16'])
+class l_fp_inject:
+    """Changing one element hash by a non-multiple of P changes the running total."""
+    params = {'t': 'int', 'h1': 'int', 'h2': 'int'}
+
+    def requires(h1, h2):
+        return (h1 - h2) % S.FP_P != 0
+
+    def statement(t, h1, h2):
+        return S.horner_step(t, h1) != S.horner_step(t, h2)
+
+
+@lemma('fingerprint-order', props=['C16'])
+class l_fp_order:
+    """Element order matters: swapping two adjacent element hashes that differ mod P changes
+    the total (for running totals in range)."""
+    params = {'t': 'int', 'a': 'int', 'b': 'int'}
+
+    def requires(t, a, b):
+        return 0 <= t < S.FP_P and (a - b) % S.FP_P != 0
+
+    def statement(t, a, b):
+        return S.horner_step(S.horner_step(t, a), b) != S.horner_step(S.horner_step(t, b), a)
+
+
+@lemma('fingerprint-range', props=['C16'])
+class l_fp_range:
+    params = {'t': 'int', 'h': 'int'}
+
+    def statement(t, h):
+        return 0 <= S.horner_step(t, h) < S.FP_P
+
+
+@contract('serif.vector.Vector._ensure_fp_powers', props=['C16'])
+class ensure_fp_powers:
+    """Writes the cache field _fp_powers only (frame checked by pyframe)."""
+    params = {'self': 'vector'}
+    trusted = True
+    modifies = ['_fp_powers']
+
+
+@contract('serif.vector.Vector.fingerprint', props=['C16'])
+class fingerprint:
+    """C16: under memo coherence (the memo is absent or current - kept by the store protocol),
+    fingerprint() returns the fold over the current contents and leaves a coherent memo."""
+    params = {'self': 'vector_fp'}
+
+    def requires(self):
+        return self._fp is None or self._fp == S.fp_spec(self._underlying)
+
+    def returns(self):
+        return S.fp_spec(self._underlying)
+
+    def ensures(self, result):
+        return self._fp == S.fp_spec(self._underlying)
+
+
+@contract('serif.vector.Vector._invalidate_fp', props=['C16'])
+class invalidate_fp:
+    params = {'self': 'vector_fp'}
+
+    def ensures(self, result):
+        return self._fp is None
+
+
+# ------------------------------------------------------------------ constructor contract vs real __new__/__init__
+@lemma('Vector-constructor-contract', props=['C04', 'C03', 'C18'])
+class l_constructor:
+    """The constructor contract assumed at every `Vector(...)` site (values = tuple(initial);
+    dtype = given / DataType(given type) / infer_dtype(values) when non-empty / None; name and
+    row flag stored) is what the real Vector.__new__ + Vector.__init__ do for scalar elements."""
+    params = {'initial': 'alt:seq_any|list_any|gen_any', 'dtype': 'alt:none|dtype|kind', 'name': 'name', 'as_row': 'bool'}
+
+    def statement(initial, dtype, name, as_row):
+        real = S.type_call_vector(initial, dtype, name, as_row)
+        model = Vector(initial, dtype=dtype, name=name, as_row=as_row)
+        return S.same_view(real, model)
